@@ -73,6 +73,19 @@ def scalars_case(ctx, idx, rng):
         _close(ctx, 'norm', ptn.norm(psi), norm_psi, np_, detail)
         _close(ctx, 'operator_average', ptn.operator_average(psi, H), np.vdot(vp, mH @ vp), nH * np_ ** 2, detail)
         _close(ctx, 'operator_inner_product', ptn.operator_inner_product(chi, H, psi), np.vdot(vc, mH @ vp), nH * np_ * nc, detail)
+    if idx % 4 == 1:
+        # a numerically vanishing state: the difference of psi and a copy perturbed at 1e-9 .. 1e-12 per tensor. <d|d> is rounding noise of EITHER sign
+        # relative to the natural scale; norm and inner products must still agree with the dense values within that scale (a NaN is not a number)
+        import copy as _copy
+        p2 = _copy.deepcopy(psi)
+        eps_ = float(rng.choice([1e-9, 1e-10, 1e-12]))
+        p2.A = [np.asarray(t, dtype=complex) * (1 + eps_ * complex(rng.normal(), rng.normal())) for t in p2.A]
+        dd = psi - p2
+        vd = refs.dense_state(dd.A)
+        nd = ts(dd)
+        # the square root amplifies the rounding error of <d|d> (~TOL nd^2) to sqrt(TOL) nd near zero
+        _close(ctx, 'norm[near-cancelling-difference]', ptn.norm(dd), float(np.linalg.norm(vd)), nd / np.sqrt(TOL), detail)
+        _close(ctx, 'vdot[near-cancelling-difference]', ptn.vdot(dd, dd), np.vdot(vd, vd), nd * nd, detail)
     if idx % 2 == 0:
         # history: the same objects edited in place, all scalars asked again
         i = int(rng.integers(0, L))
